@@ -77,6 +77,34 @@ Theorem C12_atoi_no_intermediate_overflow : forall s,
 Proof. exact simple_atoi_no_overflow. Qed.
 Print Assumptions C12_atoi_no_intermediate_overflow.
 
+(* the snapshot accumulated in int: the premise of the theorem above can fail, and then the value was undefined *)
+Theorem C12_atoi_snapshot_overflow_refuted :
+  simple_atoi_int [52; 50; 57; 52; 57; 54; 55; 50; 57; 53] = None.   (* "4294967295" *)
+Proof. exact simple_atoi_int_overflows. Qed.
+
+(* the repaired readers accumulate in unsigned and convert at the end: for EVERY string - no precondition on the
+   size of the number - they return the unbounded value wrapped to 32 bits (so: the value itself when it fits int,
+   always an int, never undefined), and stop at the same place *)
+Theorem C12_simple_atoi_wraps : forall s,
+  simple_atoi_u s = (wrap32 (fst (simple_atoi s)), snd (simple_atoi s)).
+Proof. exact simple_atoi_u_spec. Qed.
+Print Assumptions C12_simple_atoi_wraps.
+
+Theorem C12_no_sign_atoi_wraps : forall s,
+  no_sign_atoi_u s = (wrap32 (fst (no_sign_atoi s)), snd (no_sign_atoi s)).
+Proof. exact no_sign_atoi_u_spec. Qed.
+Print Assumptions C12_no_sign_atoi_wraps.
+
+Theorem C12_string_to_int_wraps : forall s checked len,
+  string_to_int_u s checked len = option_map wrap32 (string_to_int s checked len).
+Proof. exact string_to_int_u_spec. Qed.
+Print Assumptions C12_string_to_int_wraps.
+
+Theorem C12_wrap32_is_identity_on_int : forall v, fits_int v = true -> wrap32 v = v.
+Proof. exact wrap32_fits. Qed.
+Theorem C12_wrap32_is_an_int : forall v, fits_int (wrap32 v) = true.
+Proof. exact wrap32_range. Qed.
+
 (* ---- to_str_prec<P>: buffer length *)
 Theorem C12_to_str_prec_fits_buffer : forall neg n P, (P <= 6)%nat ->
   0 <= n <= 10 ^ 8 * 10 ^ Z.of_nat P -> (length (fixed_str neg n P) + 1 <= 20)%nat.
